@@ -1,1 +1,3 @@
+import GbVerif.Props.C13
 import GbVerif.Props.C17
+import GbVerif.Props.C19
